@@ -697,7 +697,7 @@ func c05Check(c *harness.Ctx) {
 func init() {
 	harness.Register(&harness.Check{
 		Property: "C05", Level: "exploration", NeedsConc: true, QuickS: 280, ThoroughS: 1600,
-		Rule:   "(a) at each of OpenSent/OpenConfirm/Established x both directions: every type octet x lengths {19,20,21,29,4096} x two fills, boundary header lengths, every marker octet corrupted, NOTIFICATION bodies of 0..3 and 4077 bytes, every truncation of each valid message type followed by FIN, the OPEN body set G02 of C02, and all UPDATE bodies up to length 4 (5 thorough) over a 12-symbol alphabet decoded by a plugin that wires every exported typed decoder; after each input a second peer must still establish, Close and Serve must return, no corebgp goroutine may remain, nothing malformed may have been written; (b) every exported decoder on all byte strings up to length 2 (3 thorough) over all 256 values x 6 flag octets, every length 0..300 and boundary lengths to 70000 with four fills, UpdateDecoder on all 11x11 boundary pairs of its two length fields x total lengths up to 70000; (c) all API call sequences up to length 4 (5 thorough) over {AddPeer A/B/invalid, DeletePeer, GetPeer, ListPeers, Serve, Close} (repeated Serve included), each followed by a liveness probe, all schedules within delay bound 1; distinct_nontrivial counts wire cases, decoder sweep blocks and distinct API outcomes",
+		Rule:   "(a) at each of OpenSent/OpenConfirm/Established x both directions: every type octet x lengths {19,20,21,29,4096} x two fills, boundary header lengths, every marker octet corrupted, received NOTIFICATIONs (codes x subcodes x 8 data patterns), bursts (a session-ending message with 1-3 complete messages behind it in the same write), RFC 9072 shaped OPENs, every truncation of each valid message type followed by FIN, the OPEN body set G02 of C02, and all UPDATE bodies up to length 4 (5 thorough) over a 12-symbol alphabet decoded by a plugin that wires every exported typed decoder; after each input a second peer must still establish, Close and Serve must return, no corebgp goroutine may remain, nothing malformed may have been written; (b) every exported decoder on all byte strings up to length 2 (3 thorough) over all 256 values x 6 flag octets, every length 0..300 and boundary lengths to 70000 with four fills, UpdateDecoder on all 11x11 boundary pairs of its two length fields x total lengths up to 70000; (c) all API call sequences up to length 4 (5 thorough) over {AddPeer A/B/invalid, DeletePeer, GetPeer, ListPeers, Serve, Close} (repeated Serve included), each followed by a liveness probe, all schedules within delay bound 1; distinct_nontrivial counts wire cases, decoder sweep blocks and distinct API outcomes",
 		Assume: []string{"virtual network (A3)", "a panic is attributed to corebgp when its frames are on the stack"},
 		Run:    c05Check,
 		Replay: func(c *harness.Ctx, raw json.RawMessage) {
